@@ -30,6 +30,20 @@ OPTS = [dict(zip(("indent", "sort_keys", "ensure_ascii"), t))
         for t in itertools.product([None, 0, 2], [False, True], [True, False])]
 
 
+def _printed_bundle_id_collision(case, item):
+    """F-C01-1: a bundle is missing after the round trip and the source document has two bundles whose
+    identifiers print identically (same prefix:local in their own scopes) while denoting different URIs."""
+    if item.get("b") != "bundle_missing":
+        return False
+    b = build(case)
+    printed = [str(x.identifier) for x in b.doc.bundles]
+    lost = [str(x.identifier) for x in b.doc.bundles if x.identifier.uri == item.get("where")]
+    return bool(lost) and printed.count(lost[0]) > 1
+
+
+KNOWN_MATCHERS = {"printed_bundle_id_collision": _printed_bundle_id_collision}
+
+
 def budget(tier):
     return {"shards": 8, "examples": 450} if tier == "quick" else {"shards": 16, "examples": 6000}
 
@@ -81,7 +95,7 @@ def classify(b, ctx, case):
         if flag:
             ctx.count("has:" + k)
     for k, v in st_.items():
-        if k.startswith(("kind:", "spell:", "via:", "skipped:", "ref:")):
+        if k.startswith(("kind:", "spell:", "via:", "skipped:", "ref:", "excluded_by_finding:", "op:")):
             ctx.count(k, v)
     for ms in b.model:
         for m in ms:
